@@ -4,27 +4,27 @@ package main
 
 import (
 	"fmt"
-	"runtime"
 	"go/types"
+	"runtime"
 	"strings"
 
 	"golang.org/x/tools/go/ssa"
 )
 
 type UnitResult struct {
-	Name     string
-	Kind     string // func | lemma
-	VC       *VC
-	Err      string // non-empty: unit could not be generated (UNDECIDED)
-	Stale    bool
-	Props    []string
-	Pure     bool
-	Trusted  bool
-	fn       *ssa.Function
-	fc       *FuncContract
+	Name       string
+	Kind       string // func | lemma
+	VC         *VC
+	Err        string // non-empty: unit could not be generated (UNDECIDED)
+	Stale      bool
+	Props      []string
+	Pure       bool
+	Trusted    bool
+	fn         *ssa.Function
+	fc         *FuncContract
 	paramConst map[string]string
-	entry    *state
-	specVars map[string]T
+	entry      *state
+	specVars   map[string]T
 }
 
 func catchUnit(u *UnitResult) {
